@@ -60,6 +60,9 @@ func runC15(c *core.Ctx) {
 	h.logChangedOnlyWithoutReaders("C15.12 log-readers")
 	c.Clause("C15.13 what bounds log compaction counts every goroutine that can still read the log, also the replication of a node that has just been dropped")
 	h.logReadersComplete("C15.13 reader-set")
+	c.Clause("C15.14 a transfer target is taken from the latest configuration, the one leader.repls follows (a node of another configuration has no replication: nil dereference)")
+	h.transferTargetEligibility("C15.14 transfer-target")
+	h.barrierRoundTrips("C15.10c barrier-round-trips")
 }
 
 type guardSpec struct{ field, mu, reason string }
